@@ -384,6 +384,9 @@ class Activated(Term):
             np.atleast_2d(self.degree).T,
             self.term.membership(x),
         )
+        if np.ndim(x) == 2 and y.shape[0] > 1:
+            # a batch of degrees over a row of samples: one row per degree, even for a single sample
+            return y  # type:ignore
         return y.squeeze()  # type:ignore
 
 
